@@ -33,7 +33,8 @@ RULE = ("(fft size in {2,4,6,7,8,12,16,32,64,128,256,1024,2048} incl. odd "
         "The channel-1x1 generator repeats the equalisation law over channels "
         "created through the antenna-aware interface (TdlMimoChannel 1x1, "
         "SuMimoChannel, SuChannel with a path loss of 0..60 dB) in either link "
-        "direction. ")
+        "direction. "
+        "The channel-1x1 generator also covers one-transmit / N-receive channels (1xN in the reverse direction, Nx1 forward) fed with the 1-D signal, one receive antenna equalised with its own taps; in 30 % of the channel cases the equalizer is created before the modem is re-configured with set_parameters. ")
 ASSUMPTIONS = ["a time-invariant channel is a Jakes generator with zero Doppler",
                "cases with min|H| < 1e-6 max|H| over the used subcarriers are "
                "tallied as ill-conditioned (the equaliser divides by H)",
@@ -276,6 +277,16 @@ def case_channel(ctx, rng, idx):
     tag = {"fft": fft, "cp": cp, "used": used, "delays": delays, "powers_dB": powers,
            "memory": mem, "memory_class": mclass}
     o = OF.OFDM(fft, cp, used)
+    eq_early = None
+    if rng.random() < 0.3:
+        # the modem and its equalizer exist already (another numerology) and the
+        # modem is then re-configured: the equalizer follows the modem it serves
+        f0 = FFTS[int(rng.integers(0, 9))]
+        u0 = 2 * int(rng.integers(1, (f0 - f0 % 2) // 2 + 1))
+        o = OF.OFDM(f0, int(rng.integers(0, f0 + 1)), u0)
+        eq_early = OF.OfdmOneTapEqualizer(o)
+        o.set_parameters(fft, cp, used)
+        tag["equalizer_created_before_set_parameters"] = [f0, u0]
     gen = FG.JakesSampleGenerator(0.0, Ts, int(rng.integers(1, 10)),
                                   RS=np.random.RandomState(int(rng.integers(0, 2 ** 31))))
     okc, ch = ctx.call("equalised-equals-input", FA.TdlChannel, gen, None, powers, delays * Ts,
@@ -302,7 +313,7 @@ def case_channel(ctx, rng, idx):
         return
     ctx.ev("args-not-mutated", np.array_equal(rc.ravel(), r[:y.size].ravel()), cls="demodulate(received)",
            detail=tag)
-    eq = OF.OfdmOneTapEqualizer(o)
+    eq = eq_early if eq_early is not None else OF.OfdmOneTapEqualizer(o)
     demc = np.array(dem, copy=True)
     okc, out = ctx.call("equalised-equals-input", eq.equalize_data, np.asarray(dem), resp,
                         cls="equalize_data", detail=tag)
@@ -383,13 +394,24 @@ def case_channel_1x1(ctx, rng, idx):
     used = maxused if rng.random() < 0.4 else 2 * int(rng.integers(1, maxused // 2 + 1))
     delays, powers, mem, mclass = gen_taps(rng, cp, fft)
     Ts = float(10.0 ** rng.uniform(-8, -4))
-    kind = ["tdl-mimo", "tdl-mimo:switched", "su-mimo", "su-mimo:switched", "su-siso"][idx % 5]
+    kind = ["tdl-mimo", "tdl-mimo:switched", "su-mimo", "su-mimo:switched", "su-siso",
+            "tdl-simo:switched", "tdl-simo"][idx % 7]
+    nant = int(rng.integers(2, 4)) if "simo" in kind else 1
     pl = None
     tag = {"fft": fft, "cp": cp, "used": used, "delays": delays, "powers_dB": powers,
            "memory": mem, "memory_class": mclass, "channel": kind}
     o = OF.OFDM(fft, cp, used)
     rs = np.random.RandomState(int(rng.integers(0, 2 ** 31)))
-    if kind.startswith("tdl-mimo"):
+    if kind.startswith("tdl-simo"):
+        # one transmit antenna, several receive antennas -- in the reverse link
+        # direction of a (1 x N) channel, or directly as an (N x 1) channel; the
+        # OFDM signal is handed over in its ordinary 1-D form and every receive
+        # antenna is equalised on its own
+        shp = (1, nant) if kind.endswith(":switched") else (nant, 1)
+        gen = FG.JakesSampleGenerator(0.0, Ts, int(rng.integers(1, 10)), shape=shp, RS=rs)
+        okc, ch = ctx.call("equalised-equals-input", FA.TdlMimoChannel, gen, None, powers,
+                           delays * Ts, Ts, cls="channel-constructor", detail=tag)
+    elif kind.startswith("tdl-mimo"):
         gen = FG.JakesSampleGenerator(0.0, Ts, int(rng.integers(1, 10)), shape=(1, 1), RS=rs)
         okc, ch = ctx.call("equalised-equals-input", FA.TdlMimoChannel, gen, None, powers,
                            delays * Ts, Ts, cls="channel-constructor", detail=tag)
@@ -417,14 +439,27 @@ def case_channel_1x1(ctx, rng, idx):
     if not okc:
         return
     r = np.asarray(r)
+    memory = int(ch.num_taps_with_padding) - 1
+    resp = ch.get_last_impulse_response()
+    if nant > 1:
+        ctx.ev("equalised-equals-input", memory <= cp and r.shape == (nant, y.size + memory),
+               cls="memory-within-cp:" + kind,
+               detail={**tag, "channel_memory": memory, "out": r.shape})
+        if memory > cp or r.shape != (nant, y.size + memory):
+            return
+        # one receive antenna, with the taps reported for that antenna
+        a = int(rng.integers(0, nant))
+        tv = np.asarray(resp.tap_values_sparse)
+        tva = tv[:, 0, a, :] if kind.endswith(":switched") else tv[:, a, 0, :]
+        r = r[a]
+        resp = FA.TdlImpulseResponse(np.ascontiguousarray(tva), resp.channel_profile)
+        tag["receive_antenna"] = a
     if r.ndim == 2 and r.shape[0] == 1:
         r = r[0]
-    memory = int(ch.num_taps_with_padding) - 1
     ctx.ev("equalised-equals-input", memory <= cp and r.shape == (y.size + memory,),
            cls="memory-within-cp:" + kind, detail={**tag, "channel_memory": memory, "out": r.shape})
     if memory > cp or r.shape != (y.size + memory,):
         return
-    resp = ch.get_last_impulse_response()
     okc, dem = ctx.call("equalised-equals-input", o.demodulate, r[:y.size].copy(),
                         cls="demodulate", detail=tag)
     if not okc:
